@@ -117,7 +117,7 @@ Definition dump_node (det : option string) (path : string) (n : node) (sk : list
            (il : list (string * cref)) (ol : list (cref * string)) : snode :=
   SNode (nlab n) (nkind n) (ncls n) (nfailed n) (nrunning n) (drop_live (nexe n)) det
         (map (fun c => (dlab c, dval c)) (nins n)) (map (fun c => (dlab c, dval c)) (nouts n))
-        (map (fun c => (slab c, srcvd c)) (nsin n)) (map slab (nsout n))
+        (map (fun c => (slab c, srcvd c)) (nsin n)) (map (fun c => (slab c, srcvd c)) (nsout n))
         sk
         (if is_comp (nkind n) then pairs (din (nkids n)) else [])
         (if is_comp (nkind n) then pairs (sinv (nkids n)) else [])
@@ -147,7 +147,7 @@ Definition restore_node (s : snode) (kids0 : list node) : node :=
        (map (fun c => mkD (fst c) (snd c) [] RNone) (s_ins s))
        (map (fun c => mkD (fst c) (snd c) [] RNone) (s_outs s))
        (map (fun c => mkS (fst c) [] (snd c)) (s_sin s))
-       (map (fun c => mkS c [] []) (s_sout s))
+       (map (fun c => mkS (fst c) [] (snd c)) (s_sout s))
        kids0 (s_start s) (s_prov s).
 
 Lemma restore_eq s :
@@ -399,6 +399,15 @@ Proof.
   - apply IH; auto. intros y Hy; apply Hd; right; exact Hy.
 Qed.
 
+Lemma nodup_app_l {A} (a b : list A) : NoDup (a ++ b) -> NoDup a.
+Proof.
+  induction a as [|x r IH]; intros H; [constructor|]. cbn in H. inversion H; subst. constructor.
+  - intros Hin. apply H2. apply in_or_app. left. exact Hin.
+  - auto.
+Qed.
+Lemma nodup_app_r {A} (a b : list A) : NoDup (a ++ b) -> NoDup b.
+Proof. induction a as [|x r IH]; intros H; [exact H|]. cbn in H. inversion H; subst. auto. Qed.
+
 Lemma filter_rev' {A} (f : A -> bool) l : filter f (rev l) = rev (filter f l).
 Proof.
   induction l as [|x r IH]; [reflexivity|]. cbn [rev filter]. rewrite filter_app, IH. cbn [filter].
@@ -536,4 +545,989 @@ Proof.
     exists l'. split; [reflexivity|]. apply memb_In_c. exact H.
   - intros H [i l] He. cbn [fst snd]. rewrite forallb_forall. intros o Ho.
     destruct (H i l o He Ho) as [l' [A B]]. rewrite A. apply memb_In_c. exact B.
+Qed.
+
+(* =================================================================== 4. re-linking one level *)
+Lemma level_ok_spec K : level_ok K = true ->
+  (table_ok (din K) = true /\ table_ok (dout K) = true /\ table_ok (sinv K) = true /\ table_ok (soutv K) = true)
+  /\ (sym_half (din K) (dout K) = true /\ sym_half (dout K) (din K) = true)
+  /\ (sym_half (sinv K) (soutv K) = true /\ sym_half (soutv K) (sinv K) = true).
+Proof. unfold level_ok. rewrite !andb_true_iff. tauto. Qed.
+
+Lemma put_empty K : put (fun _ => []) (fun _ => []) (fun _ => []) (fun _ => []) K = map clear_own K.
+Proof. reflexivity. Qed.
+
+Lemma has_key_keys E E' k : keys E = keys E' -> has_key E k = has_key E' k.
+Proof.
+  intros H. destruct (has_key E k) eqn:A.
+  - symmetry. apply has_key_In. rewrite <- H. apply has_key_In. exact A.
+  - destruct (has_key E' k) eqn:B; [|reflexivity]. apply has_key_In in B. rewrite <- H in B.
+    apply has_key_In in B. congruence.
+Qed.
+
+(* the two restore passes of Composite.__setstate__ on children K0 that carry no connections,
+   from the strings of the children K: closed form of every connection list *)
+Lemma relink_level K K0 :
+  level_ok K = true -> map clear_own K0 = K0 ->
+  keys (din K0) = keys (din K) -> keys (dout K0) = keys (dout K) ->
+  keys (sinv K0) = keys (sinv K) -> keys (soutv K0) = keys (soutv K) ->
+  exists K1, relink connect_d (rev (pairs (din K))) K0 = Ok K1 /\
+             relink connect_s (pairs (sinv K)) K1 =
+             Ok (put (look (din K)) (canon (din K))
+                     (fun i => rev (look (sinv K) i)) (fun o => rev (canon (sinv K) o)) K0).
+Proof.
+  intros Hl Hc Kdi Kdo Ksi Kso.
+  destruct (level_ok_spec _ Hl) as [[Tdi [Tdo [Tsi Tso]]] [[Sd1 Sd2] [Ss1 Ss2]]].
+  apply table_ok_spec in Tdi, Tdo, Tsi, Tso.
+  destruct Tdi as [Ndi Ldi], Tdo as [Ndo Ldo], Tsi as [Nsi Lsi], Tso as [Nso Lso].
+  rewrite sym_half_spec in Sd1, Sd2, Ss1, Ss2.
+  assert (E0 : put (fun _ => []) (fun _ => []) (fun _ => []) (fun _ => []) K0 = K0)
+    by (rewrite put_empty; exact Hc).
+  pose proof (@relink_put_d (fun _ => []) (fun _ => []) K0 (rev (pairs (din K))) (fun _ => []) (fun _ => [])) as R1.
+  rewrite E0 in R1. rewrite R1; clear R1.
+  - eexists. split; [reflexivity|].
+    rewrite relink_put_s.
+    + f_equal. apply put_ext_all; intros x.
+      * rewrite app_nil_r, outs_of_rev, rev_involutive. apply outs_of_pairs; auto.
+      * rewrite app_nil_r, ins_of_rev, rev_involutive. apply ins_of_pairs; auto.
+      * rewrite app_nil_r, outs_of_pairs; auto.
+      * rewrite app_nil_r, ins_of_pairs; auto.
+    + intros p Hp. apply in_pairs in Hp. destruct Hp as [l [He Ho]].
+      rewrite (has_key_keys _ _ _ Ksi), (has_key_keys _ _ _ Kso). split.
+      * apply has_key_In. unfold keys. apply in_map_iff. exists (fst p, l). auto.
+      * destruct (Ss1 _ _ _ He Ho) as [l' [A _]]. unfold has_key. rewrite A. reflexivity.
+    + apply nodup_pairs; auto.
+    + intros p _ H. exact H.
+  - intros p Hp. apply in_rev in Hp. apply in_pairs in Hp. destruct Hp as [l [He Ho]].
+    rewrite (has_key_keys _ _ _ Kdi), (has_key_keys _ _ _ Kdo). split.
+    + apply has_key_In. unfold keys. apply in_map_iff. exists (fst p, l). auto.
+    + destruct (Sd1 _ _ _ He Ho) as [l' [A _]]. unfold has_key. rewrite A. reflexivity.
+  - apply NoDup_rev. apply nodup_pairs; auto.
+  - intros p _ H. exact H.
+Qed.
+
+(* =================================================================== 5. the closed form of a round trip *)
+Definition relevel (K' : list node) : list node :=
+  put (look (din K')) (canon (din K')) (fun i => rev (look (sinv K') i)) (fun o => rev (canon (sinv K') o)) K'.
+
+Fixpoint inner (n : node) : node :=
+  match n with
+  | Node lab kd cls fl rn ex ins outs sin sout kids start prov =>
+      Node lab kd cls fl rn (drop_live ex) ins outs sin sout
+           (relevel ((fix go (ks : list node) : list node :=
+                        match ks with [] => [] | k :: r => inner k :: go r end) kids))
+           start prov
+  end.
+
+Lemma inner_eq n :
+  inner n = Node (nlab n) (nkind n) (ncls n) (nfailed n) (nrunning n) (drop_live (nexe n))
+                 (nins n) (nouts n) (nsin n) (nsout n) (relevel (map inner (nkids n))) (nstart n) (nprov n).
+Proof. destruct n; reflexivity. Qed.
+
+(* a node as it comes back on its own: no connections of its own, no link into a parent *)
+Definition strip_root (n : node) : node :=
+  Node (nlab n) (nkind n) (ncls n) (nfailed n) (nrunning n) (nexe n)
+       (map (fun c => set_dcon c []) (nins n))
+       (map (fun c => set_drcv (set_dcon c []) RNone) (nouts n))
+       (map (fun c => set_scon c []) (nsin n)) (map (fun c => set_scon c []) (nsout n))
+       (nkids n) (nstart n) (nprov n).
+Definition ref (n : node) : node := strip_root (inner n).
+
+Definition orecv_clear (x : node) : node := set_nouts x (map (fun c => set_drcv c RNone) (nouts x)).
+
+Lemma clear_own_strip x : clear_own (strip_root x) = strip_root x.
+Proof. unfold clear_own, strip_root. cbn. rewrite !map_map. reflexivity. Qed.
+
+Lemma putk_strip fi fo gi go x : putk fi fo gi go (strip_root x) = orecv_clear (putk fi fo gi go x).
+Proof. unfold putk, strip_root, orecv_clear, set_nouts. cbn. rewrite !map_map. reflexivity. Qed.
+
+(* tables only depend on labels and own channels *)
+Lemma din_map_pres (g : node -> node) K :
+  (forall k, nlab (g k) = nlab k /\ nins (g k) = nins k) -> din (map g K) = din K.
+Proof.
+  intros H. unfold din. induction K as [|k r IH]; [reflexivity|]. cbn [map flat_map].
+  destruct (H k) as [A B]. rewrite A, B, IH. reflexivity.
+Qed.
+Lemma dout_map_pres (g : node -> node) K :
+  (forall k, nlab (g k) = nlab k /\ nouts (g k) = nouts k) -> dout (map g K) = dout K.
+Proof.
+  intros H. unfold dout. induction K as [|k r IH]; [reflexivity|]. cbn [map flat_map].
+  destruct (H k) as [A B]. rewrite A, B, IH. reflexivity.
+Qed.
+Lemma sinv_map_pres (g : node -> node) K :
+  (forall k, nlab (g k) = nlab k /\ nsin (g k) = nsin k) -> sinv (map g K) = sinv K.
+Proof.
+  intros H. unfold sinv. induction K as [|k r IH]; [reflexivity|]. cbn [map flat_map].
+  destruct (H k) as [A B]. rewrite A, B, IH. reflexivity.
+Qed.
+Lemma soutv_map_pres (g : node -> node) K :
+  (forall k, nlab (g k) = nlab k /\ nsout (g k) = nsout k) -> soutv (map g K) = soutv K.
+Proof.
+  intros H. unfold soutv. induction K as [|k r IH]; [reflexivity|]. cbn [map flat_map].
+  destruct (H k) as [A B]. rewrite A, B, IH. reflexivity.
+Qed.
+
+Lemma inner_lab k : nlab (inner k) = nlab k. Proof. destruct k; reflexivity. Qed.
+Lemma inner_ins k : nins (inner k) = nins k. Proof. destruct k; reflexivity. Qed.
+Lemma inner_outs k : nouts (inner k) = nouts k. Proof. destruct k; reflexivity. Qed.
+Lemma inner_sin k : nsin (inner k) = nsin k. Proof. destruct k; reflexivity. Qed.
+Lemma inner_sout k : nsout (inner k) = nsout k. Proof. destruct k; reflexivity. Qed.
+
+Lemma din_inner K : din (map inner K) = din K.
+Proof. apply din_map_pres. intros k; split; [apply inner_lab|apply inner_ins]. Qed.
+Lemma dout_inner K : dout (map inner K) = dout K.
+Proof. apply dout_map_pres. intros k; split; [apply inner_lab|apply inner_outs]. Qed.
+Lemma sinv_inner K : sinv (map inner K) = sinv K.
+Proof. apply sinv_map_pres. intros k; split; [apply inner_lab|apply inner_sin]. Qed.
+Lemma soutv_inner K : soutv (map inner K) = soutv K.
+Proof. apply soutv_map_pres. intros k; split; [apply inner_lab|apply inner_sout]. Qed.
+
+Lemma keys_refill f E : keys (refill f E) = keys E.
+Proof. unfold keys, refill. rewrite map_map. reflexivity. Qed.
+
+Lemma strip_as_put x :
+  strip_root x = orecv_clear (putk (fun _ => []) (fun _ => []) (fun _ => []) (fun _ => []) x).
+Proof. unfold strip_root, orecv_clear, putk, set_nouts. cbn. rewrite !map_map. reflexivity. Qed.
+
+Lemma map_ref K : map ref K = map strip_root (map inner K).
+Proof. rewrite map_map. reflexivity. Qed.
+
+Lemma keys_din_ref K : keys (din (map ref K)) = keys (din K).
+Proof.
+  rewrite map_ref. rewrite <- (din_inner K). generalize (map inner K) as X. intros X.
+  unfold din, keys. induction X as [|x r IH]; [reflexivity|]. cbn [map flat_map].
+  rewrite !map_app. f_equal; [cbn; rewrite !map_map; reflexivity | exact IH].
+Qed.
+Lemma keys_dout_ref K : keys (dout (map ref K)) = keys (dout K).
+Proof.
+  rewrite map_ref. rewrite <- (dout_inner K). generalize (map inner K) as X. intros X.
+  unfold dout, keys. induction X as [|x r IH]; [reflexivity|]. cbn [map flat_map].
+  rewrite !map_app. f_equal; [cbn; rewrite !map_map; reflexivity | exact IH].
+Qed.
+Lemma keys_sinv_ref K : keys (sinv (map ref K)) = keys (sinv K).
+Proof.
+  rewrite map_ref. rewrite <- (sinv_inner K). generalize (map inner K) as X. intros X.
+  unfold sinv, keys. induction X as [|x r IH]; [reflexivity|]. cbn [map flat_map].
+  rewrite !map_app. f_equal; [cbn; rewrite !map_map; reflexivity | exact IH].
+Qed.
+Lemma keys_soutv_ref K : keys (soutv (map ref K)) = keys (soutv K).
+Proof.
+  rewrite map_ref. rewrite <- (soutv_inner K). generalize (map inner K) as X. intros X.
+  unfold soutv, keys. induction X as [|x r IH]; [reflexivity|]. cbn [map flat_map].
+  rewrite !map_app. f_equal; [cbn; rewrite !map_map; reflexivity | exact IH].
+Qed.
+
+(* ---- lookups through label-preserving maps *)
+Lemma findn_map (g : node -> node) K c :
+  (forall k, nlab (g k) = nlab k) -> findn c (map g K) = option_map g (findn c K).
+Proof.
+  intros H. unfold findn. induction K as [|k r IH]; [reflexivity|]. cbn [map find]. rewrite H.
+  destruct (String.eqb (nlab k) c); [reflexivity|exact IH].
+Qed.
+Lemma findd_map (g : dchan -> dchan) cs l :
+  (forall c, dlab (g c) = dlab c) -> findd l (map g cs) = option_map g (findd l cs).
+Proof.
+  intros H. unfold findd. induction cs as [|c r IH]; [reflexivity|]. cbn [map find]. rewrite H.
+  destruct (String.eqb (dlab c) l); [reflexivity|exact IH].
+Qed.
+Lemma findn_In c K k : findn c K = Some k -> In k K /\ nlab k = c.
+Proof.
+  unfold findn. intros H. apply find_some in H. destruct H as [A B]. apply String.eqb_eq in B. auto.
+Qed.
+Lemma findd_In l cs c : findd l cs = Some c -> In c cs /\ dlab c = l.
+Proof.
+  unfold findd. intros H. apply find_some in H. destruct H as [A B]. apply String.eqb_eq in B. auto.
+Qed.
+Lemma findd_nodup cs c : NoDup (map dlab cs) -> In c cs -> findd (dlab c) cs = Some c.
+Proof.
+  unfold findd. induction cs as [|x r IH]; intros Hn Hi; [contradiction|]. cbn [find].
+  cbn [map] in Hn. inversion Hn as [|? ? Hnin Hn']; subst. destruct Hi as [->|Hi].
+  - rewrite String.eqb_refl. reflexivity.
+  - destruct (String.eqb (dlab x) (dlab c)) eqn:E.
+    + apply String.eqb_eq in E. exfalso. apply Hnin. rewrite E. apply in_map. exact Hi.
+    + apply IH; auto.
+Qed.
+Lemma findn_nodup K k : NoDup (map nlab K) -> In k K -> findn (nlab k) K = Some k.
+Proof.
+  unfold findn. induction K as [|x r IH]; intros Hn Hi; [contradiction|]. cbn [find].
+  cbn [map] in Hn. inversion Hn as [|? ? Hnin Hn']; subst. destruct Hi as [->|Hi].
+  - rewrite String.eqb_refl. reflexivity.
+  - destruct (String.eqb (nlab x) (nlab k)) eqn:E.
+    + apply String.eqb_eq in E. exfalso. apply Hnin. rewrite E. apply in_map. exact Hi.
+    + apply IH; auto.
+Qed.
+
+(* ---- the hops of a pushed value do not depend on connections, executors or output links *)
+Lemma chain_putk fi fo gi go k l : chain (putk fi fo gi go k) l = chain k l.
+Proof.
+  rewrite !chain_eq. cbn [putk nins nrunning nkids].
+  rewrite findd_map by reflexivity. destruct (findd l (nins k)); reflexivity.
+Qed.
+Lemma chain_orecv k l : chain (orecv_clear k) l = chain k l.
+Proof. rewrite !chain_eq. destruct k; reflexivity. Qed.
+
+Lemma chain_kid_map (g : node -> node) K c l :
+  (forall k, nlab (g k) = nlab k) -> (forall k, In k K -> chain (g k) l = chain k l) ->
+  chain_kid (map g K) c l = chain_kid K c l.
+Proof.
+  intros Hl Hc. unfold chain_kid. rewrite findn_map by exact Hl.
+  destruct (findn c K) as [k|] eqn:F; [|reflexivity]. cbn. apply Hc. apply findn_In in F. tauto.
+Qed.
+
+Lemma chain_inner : forall k l, chain (inner k) l = chain k l.
+Proof.
+  induction k as [lab kd cls fl rn ex ins outs sin sout kids start prov IH] using node_ind'.
+  intros l. rewrite inner_eq, !chain_eq. cbn [nins nrunning nkids].
+  destruct (findd l ins) as [c|]; [|reflexivity]. f_equal.
+  destruct (drcv c) as [|c2 l2|]; try reflexivity.
+  unfold relevel, put. rewrite map_map. apply chain_kid_map.
+  - intros k. cbn. apply inner_lab.
+  - intros k Hk. rewrite chain_putk. rewrite Forall_forall in IH. apply IH. exact Hk.
+Qed.
+
+Lemma chain_strip k l : chain (strip_root k) l = chain k l.
+Proof. rewrite strip_as_put, chain_orecv, chain_putk. reflexivity. Qed.
+Lemma chain_ref k l : chain (ref k) l = chain k l.
+Proof. unfold ref. rewrite chain_strip. apply chain_inner. Qed.
+
+(* =================================================================== 6. re-forging value links is the identity on quiet links *)
+Definition insokb (m : node) : bool := nodupb String.eqb (map dlab (nins m)).
+Definition quiet (v : slot) (hs : list (bool * slot)) : bool :=
+  forallb (fun h => negb (fst h) && slot_eqb (snd h) v) hs.
+
+Lemma setval_same cs l v c :
+  NoDup (map dlab cs) -> findd l cs = Some c -> dval c = v -> setval l v cs = cs.
+Proof.
+  intros Hn Hf Hv. apply findd_In in Hf. destruct Hf as [Hi Hl]. subst l.
+  unfold setval. rewrite <- (map_id cs) at 2. apply map_ext_in. intros c' Hc'.
+  destruct (String.eqb (dlab c') (dlab c)) eqn:E; [|reflexivity]. apply String.eqb_eq in E.
+  assert (c' = c).
+  { pose proof (findd_nodup _ _ Hn Hc') as A. pose proof (findd_nodup _ _ Hn Hi) as B. rewrite E in A. congruence. }
+  subst c'. unfold set_dval. rewrite <- Hv. destruct c; reflexivity.
+Qed.
+
+Lemma set_same n : set_nkids (set_nins n (nins n)) (nkids n) = n.
+Proof. destruct n; reflexivity. Qed.
+Lemma set_nins_same n : set_nins n (nins n) = n.
+Proof. destruct n; reflexivity. Qed.
+
+Lemma go_quiet kids c2 l2 v k2 :
+  findn c2 kids = Some k2 -> push_in k2 l2 v = Ok k2 ->
+  (fix go (ks : list node) : res (list node) :=
+     match ks with
+     | [] => Ok []
+     | k :: r =>
+         if String.eqb (nlab k) c2
+         then match push_in k l2 v with Ok k' => Ok (k' :: r) | Err e => Err e end
+         else match go r with Ok r' => Ok (k :: r') | Err e => Err e end
+     end) kids = Ok kids.
+Proof.
+  unfold findn. induction kids as [|k r IH]; cbn [find]; [discriminate|].
+  destruct (String.eqb (nlab k) c2).
+  - intros H P. inversion H; subst. rewrite P. reflexivity.
+  - intros H P. rewrite (IH H P). reflexivity.
+Qed.
+
+Lemma forallb_In {A} (f : A -> bool) l x : forallb f l = true -> In x l -> f x = true.
+Proof. intros H. rewrite forallb_forall in H. auto. Qed.
+
+Lemma push_quiet : forall k, allb insokb k = true -> allb resolve_here k = true ->
+  forall l v c, findd l (nins k) = Some c -> quiet v (chain k l) = true -> push_in k l v = Ok k.
+Proof.
+  induction k as [lab kd cls fl rn ex ins outs sin sout kids start prov IH] using node_ind'.
+  intros Hi Hr l v c Hf Hq. rewrite allb_eq in Hi, Hr. apply andb_true_iff in Hi, Hr.
+  destruct Hi as [Hi Hik], Hr as [Hr Hrk]. cbn [nkids] in Hik, Hrk.
+  rewrite push_in_eq. rewrite chain_eq in Hq. cbn [nins nrunning nkids] in *. rewrite Hf in *.
+  unfold quiet in Hq. cbn [forallb fst snd] in Hq. apply andb_true_iff in Hq. destruct Hq as [Hq0 Hq].
+  apply andb_true_iff in Hq0. destruct Hq0 as [Hrn Hv]. apply negb_true_iff in Hrn. subst rn.
+  apply slot_eqb_true in Hv.
+  unfold insokb in Hi. cbn [nins] in Hi. apply nodupb_s in Hi.
+  assert (Hs : setval l v ins = ins) by (eapply setval_same; eauto).
+  destruct (drcv c) as [|c2 l2|] eqn:Er; rewrite Hs; try reflexivity.
+  (* forwarded to a child *)
+  unfold resolve_here in Hr. cbn [nkind nins nkids nouts] in Hr.
+  apply findd_In in Hf. destruct Hf as [Hcin _].
+  destruct (is_linked kd).
+  - apply andb_true_iff in Hr. destruct Hr as [Hr _]. pose proof (forallb_In _ _ _ Hr Hcin) as Hc. cbn in Hc.
+    rewrite Er in Hc. unfold has_in in Hc.
+    destruct (findn c2 kids) as [k2|] eqn:F2; [|discriminate].
+    destruct (findd l2 (nins k2)) as [c'|] eqn:F3; [|discriminate].
+    rewrite (@go_quiet kids c2 l2 v k2 F2).
+    + reflexivity.
+    + rewrite Forall_forall in IH. pose proof (findn_In _ _ F2) as [Hk2 _].
+      eapply IH; eauto.
+      * exact (forallb_In _ _ _ Hik Hk2).
+      * exact (forallb_In _ _ _ Hrk Hk2).
+      * unfold chain_kid in Hq. rewrite F2 in Hq. exact Hq.
+  - apply andb_true_iff in Hr. destruct Hr as [Hr _]. pose proof (forallb_In _ _ _ Hr Hcin) as Hc. cbn in Hc.
+    rewrite Er in Hc. discriminate.
+Qed.
+
+Lemma push_kid_quiet kids c l v x :
+  findn c kids = Some x -> push_in x l v = Ok x -> push_kid kids c l v = Ok kids.
+Proof.
+  unfold findn. induction kids as [|k r IH]; cbn [find push_kid]; [discriminate|].
+  destruct (String.eqb (nlab k) c).
+  - intros H P. inversion H; subst. rewrite P. reflexivity.
+  - intros H P. rewrite (IH H P). reflexivity.
+Qed.
+
+(* Macro.__setstate__, input links: on a node whose own inputs were just rebuilt blank *)
+Definition blank (c : dchan) : dchan := mkD (dlab c) (dval c) [] RNone.
+Definition il_of (ins : list dchan) : list (string * cref) :=
+  map (fun c => (dlab c, match drcv c with RChild k l => (k, l) | _ => ("", "") end)) ins.
+
+Lemma ilinks_of_ok ins :
+  (forall c, In c ins -> exists k l, drcv c = RChild k l) -> ilinks_of ins = Ok (il_of ins).
+Proof.
+  induction ins as [|c r IH]; intros H; [reflexivity|]. cbn [ilinks_of il_of map].
+  destruct (H c (or_introl eq_refl)) as [k [l E]]. rewrite E.
+  rewrite IH; [reflexivity|]. intros c' Hc'. apply H. right. exact Hc'.
+Qed.
+
+Lemma setrcv_notin l r cs : ~ In l (map dlab cs) -> setrcv l r cs = cs.
+Proof.
+  intros H. unfold setrcv. rewrite <- (map_id cs) at 2. apply map_ext_in. intros c Hc.
+  destruct (String.eqb (dlab c) l) eqn:E; [|reflexivity]. apply String.eqb_eq in E.
+  exfalso. apply H. rewrite <- E. apply in_map. exact Hc.
+Qed.
+Lemma findd_app_notin l a b : ~ In l (map dlab a) -> findd l (a ++ b) = findd l b.
+Proof.
+  unfold findd. induction a as [|c r IH]; intros H; [reflexivity|]. cbn [app find].
+  destruct (String.eqb (dlab c) l) eqn:E.
+  - apply String.eqb_eq in E. exfalso. apply H. left. exact E.
+  - apply IH. intros Hin. apply H. right. exact Hin.
+Qed.
+
+Lemma set_set_ins n A K B K' :
+  set_nkids (set_nins (set_nkids (set_nins n A) K) B) K' = set_nkids (set_nins n B) K'.
+Proof. destruct n; reflexivity. Qed.
+
+Lemma forge_ins_exact (n : node) kids : forall todo done,
+  NoDup (map dlab (done ++ todo)) ->
+  (forall c, In c todo -> exists k l x, drcv c = RChild k l /\ findn k kids = Some x /\
+                                        (exists c', findd l (nins x) = Some c') /\ push_in x l (dval c) = Ok x) ->
+  forge_ins (set_nkids (set_nins n (map (fun c => set_dcon c []) done ++ map blank todo)) kids) (il_of todo) =
+  Ok (set_nkids (set_nins n (map (fun c => set_dcon c []) (done ++ todo))) kids).
+Proof.
+  induction todo as [|c r IH]; intros done Hn Hq.
+  - cbn [il_of map forge_ins]. rewrite !app_nil_r. reflexivity.
+  - change (il_of (c :: r)) with ((dlab c, match drcv c with RChild k l => (k, l) | _ => ("", "") end) :: il_of r).
+    cbn [forge_ins].
+    destruct (Hq c (or_introl eq_refl)) as [k [l [x [Er [Fk [[c' Fc] Pq]]]]]].
+    assert (Hnc : ~ In (dlab c) (map dlab done)).
+    { rewrite map_app in Hn. apply NoDup_remove_2 in Hn. intros H. apply Hn. apply in_or_app. left.
+      cbn [map]. exact H. }
+    assert (Hnr : ~ In (dlab c) (map dlab r)).
+    { rewrite map_app in Hn. apply NoDup_remove_2 in Hn. intros H. apply Hn. apply in_or_app. right. exact H. }
+    unfold forge_in. cbn [fst snd]. rewrite Er.
+    assert (Ei : nins (set_nkids (set_nins n (map (fun c0 => set_dcon c0 []) done ++ map blank (c :: r))) kids)
+                 = map (fun c0 => set_dcon c0 []) done ++ map blank (c :: r)) by (destruct n; reflexivity).
+    assert (Ek : nkids (set_nkids (set_nins n (map (fun c0 => set_dcon c0 []) done ++ map blank (c :: r))) kids) = kids)
+      by (destruct n; reflexivity).
+    rewrite Ei, Ek.
+    rewrite findd_app_notin by (rewrite map_map; exact Hnc).
+    cbn [map]. unfold findd at 1. cbn [find blank dlab]. rewrite String.eqb_refl.
+    cbn [fst snd]. rewrite Fk. rewrite Fc. change (dval (blank c)) with (dval c).
+    rewrite (@push_kid_quiet kids k l (dval c) x Fk Pq).
+    assert (Es : setrcv (dlab c) (RChild k l) (map (fun c0 => set_dcon c0 []) done ++ blank c :: map blank r)
+                 = map (fun c0 => set_dcon c0 []) (done ++ [c]) ++ map blank r).
+    { unfold setrcv at 1. rewrite map_app. fold (setrcv (dlab c) (RChild k l) (map (fun c0 => set_dcon c0 []) done)).
+      rewrite setrcv_notin by (rewrite map_map; exact Hnc).
+      cbn [map]. cbn [blank dlab]. rewrite String.eqb_refl.
+      fold (setrcv (dlab c) (RChild k l) (map blank r)).
+      rewrite setrcv_notin by (rewrite map_map; exact Hnr).
+      rewrite map_app, <- app_assoc. cbn [map app]. do 2 f_equal.
+      unfold set_drcv, set_dcon. cbn. rewrite Er. reflexivity. }
+    rewrite Es.
+    rewrite set_set_ins.
+    rewrite (IH (done ++ [c])).
+    + rewrite <- app_assoc. reflexivity.
+    + rewrite <- app_assoc. exact Hn.
+    + intros c0 Hc0. apply Hq. right. exact Hc0.
+Qed.
+
+(* Macro.__setstate__, output links: children's outputs lost their receivers when pickled *)
+Definition putr (h : cref -> recv) (X : list node) : list node :=
+  map (fun k => set_nouts k (map (fun c => set_drcv c (h (nlab k, dlab c))) (nouts k))) X.
+Definition override (h : cref -> recv) (key : cref) (out : string) (x : cref) : recv :=
+  if cref_eqb x key then RParent out else h x.
+Fixpoint hfold (h : cref -> recv) (L : list (cref * string)) : cref -> recv :=
+  match L with [] => h | p :: r => hfold (override h (fst p) (snd p)) r end.
+
+Lemma orecv_as_putr X : map orecv_clear X = putr (fun _ => RNone) X.
+Proof. reflexivity. Qed.
+
+Lemma set_nouts_lab k x : nlab (set_nouts k x) = nlab k. Proof. destruct k; reflexivity. Qed.
+Lemma set_nouts_outs k x : nouts (set_nouts k x) = x. Proof. destruct k; reflexivity. Qed.
+
+Lemma set_nouts_twice k a b : set_nouts (set_nouts k a) b = set_nouts k b.
+Proof. destruct k; reflexivity. Qed.
+
+Lemma putr_step h X kc cl out :
+  map (fun k' => if String.eqb (nlab k') kc
+                 then set_nouts k' (setrcv cl (RParent out) (nouts k')) else k') (putr h X)
+  = putr (override h (kc, cl) out) X.
+Proof.
+  unfold putr. rewrite map_map. apply map_ext. intros k. rewrite set_nouts_lab.
+  destruct (String.eqb (nlab k) kc) eqn:E.
+  - rewrite set_nouts_outs. rewrite set_nouts_twice. apply f_equal. unfold setrcv. rewrite map_map.
+    apply map_ext. intros c. cbn [set_drcv dlab]. unfold override. rewrite cref_pair_eqb, E. cbn [andb].
+    destruct (String.eqb (dlab c) cl); reflexivity.
+  - f_equal. apply map_ext. intros c. unfold override. rewrite cref_pair_eqb, E. reflexivity.
+Qed.
+
+Lemma set_out_same n K K' : set_nkids (set_nouts (set_nkids n K) (nouts n)) K' = set_nkids n K'.
+Proof. destruct n; reflexivity. Qed.
+
+Lemma forge_out_step n h X kc cl out k c c' :
+  NoDup (map dlab (nouts n)) ->
+  findn kc X = Some k -> findd cl (nouts k) = Some c -> findd out (nouts n) = Some c' -> dval c' = dval c ->
+  forge_out (set_nkids n (putr h X)) ((kc, cl), out) = Ok (set_nkids n (putr (override h (kc, cl) out) X)).
+Proof.
+  intros Hn Fk Fc Fo Hv. unfold forge_out. cbn [fst snd].
+  replace (nkids (set_nkids n (putr h X))) with (putr h X) by (destruct n; reflexivity).
+  replace (nouts (set_nkids n (putr h X))) with (nouts n) by (destruct n; reflexivity).
+  unfold putr at 1. rewrite findn_map by (intros; apply set_nouts_lab). rewrite Fk. cbn [option_map].
+  rewrite set_nouts_outs. rewrite findd_map by reflexivity. rewrite Fc. cbn [option_map]. rewrite Fo.
+  rewrite putr_step. change (dval (set_drcv c (h (nlab k, dlab c)))) with (dval c).
+  rewrite (@setval_same (nouts n) out (dval c) c' Hn Fo Hv). rewrite set_out_same. reflexivity.
+Qed.
+
+Lemma forge_outs_fold n X : forall L h,
+  NoDup (map dlab (nouts n)) ->
+  (forall p, In p L -> exists k c c', findn (fst (fst p)) X = Some k /\ findd (snd (fst p)) (nouts k) = Some c /\
+                                      findd (snd p) (nouts n) = Some c' /\ dval c' = dval c) ->
+  forge_outs (set_nkids n (putr h X)) L = Ok (set_nkids n (putr (hfold h L) X)).
+Proof.
+  induction L as [|[[kc cl] out] r IH]; intros h Hn Hq; [reflexivity|]. cbn [forge_outs hfold fst snd].
+  destruct (Hq _ (or_introl eq_refl)) as [k [c [c' [Fk [Fc [Fo Hv]]]]]]. cbn [fst snd] in *.
+  rewrite (@forge_out_step n h X kc cl out k c c' Hn Fk Fc Fo Hv). apply IH; auto.
+  intros p Hp. apply Hq. right. exact Hp.
+Qed.
+
+Lemma find_app' {A} (f : A -> bool) a b :
+  find f (a ++ b) = match find f a with Some x => Some x | None => find f b end.
+Proof. induction a as [|x r IH]; [reflexivity|]. cbn. destruct (f x); [reflexivity|exact IH]. Qed.
+
+Lemma hfold_spec : forall L h key,
+  hfold h L key = match find (fun p => cref_eqb (fst p) key) (rev L) with
+                  | Some p => RParent (snd p) | None => h key end.
+Proof.
+  induction L as [|p r IH]; intros h key; [reflexivity|]. cbn [hfold rev]. rewrite IH.
+  rewrite find_app'. destruct (find (fun p0 => cref_eqb (fst p0) key) (rev r)); [reflexivity|].
+  cbn [find]. unfold override. rewrite (cref_eqb_sym key (fst p)). destruct (cref_eqb (fst p) key); reflexivity.
+Qed.
+
+Definition otab (X : list node) : list (cref * dchan) :=
+  flat_map (fun k => map (fun c => ((nlab k, dlab c), c)) (nouts k)) X.
+Lemma keys_otab X : map fst (otab X) = keys (dout X).
+Proof.
+  unfold otab, dout, keys. induction X as [|k r IH]; [reflexivity|]. cbn [flat_map].
+  rewrite !map_app. f_equal; [rewrite !map_map; reflexivity | exact IH].
+Qed.
+Lemma in_otab X key c : In (key, c) (otab X) <-> exists k, In k X /\ In c (nouts k) /\ key = (nlab k, dlab c).
+Proof.
+  unfold otab. rewrite in_flat_map. split.
+  - intros [k [Hk Hc]]. apply in_map_iff in Hc. destruct Hc as [c0 [E Hc0]]. inversion E; subst. eauto.
+  - intros [k [Hk [Hc E]]]. exists k. split; [exact Hk|]. apply in_map_iff. exists c. subst. auto.
+Qed.
+Lemma nodup_fst_fun {A B} (T : list (A * B)) a b b' :
+  NoDup (map fst T) -> In (a, b) T -> In (a, b') T -> b = b'.
+Proof.
+  induction T as [|[x y] r IH]; intros Hn H1 H2; [contradiction|]. cbn [map fst] in Hn.
+  inversion Hn as [|? ? Hnin Hn']; subst.
+  destruct H1 as [H1|H1], H2 as [H2|H2].
+  - congruence.
+  - inversion H1; subst. exfalso. apply Hnin. apply in_map_iff. exists (a, b'). auto.
+  - inversion H2; subst. exfalso. apply Hnin. apply in_map_iff. exists (a, b). auto.
+  - eapply IH; eauto.
+Qed.
+
+Lemma in_olinks X key l :
+  In (key, l) (olinks_of X) <->
+  exists k c, In k X /\ In c (nouts k) /\ key = (nlab k, dlab c) /\ recv_label (drcv c) = Some l.
+Proof.
+  unfold olinks_of. rewrite in_flat_map. split.
+  - intros [k [Hk H]]. apply in_flat_map in H. destruct H as [c [Hc H]].
+    destruct (recv_label (drcv c)) as [l0|] eqn:E; [|contradiction].
+    destruct H as [H|[]]. inversion H; subst. exists k, c. auto.
+  - intros [k [c [Hk [Hc [E R]]]]]. exists k. split; [exact Hk|]. apply in_flat_map. exists c.
+    split; [exact Hc|]. rewrite R. left. subst. reflexivity.
+Qed.
+
+Lemma forge_outs_exact n X :
+  NoDup (keys (dout X)) -> NoDup (map nlab X) -> NoDup (map dlab (nouts n)) ->
+  (forall k c, In k X -> In c (nouts k) ->
+               drcv c = RNone \/ exists o c', drcv c = RParent o /\ findd o (nouts n) = Some c' /\ dval c' = dval c) ->
+  forge_outs (set_nkids n (map orecv_clear X)) (olinks_of X) = Ok (set_nkids n X).
+Proof.
+  intros Hk Hl Hn Hr. rewrite orecv_as_putr.
+  assert (Hkl : forall k, In k X -> NoDup (map dlab (nouts k))).
+  { intros k Hin. clear -Hk Hin. unfold dout, keys in Hk. induction X as [|x r IH]; [contradiction|].
+    cbn [flat_map] in Hk. rewrite map_app in Hk. destruct Hin as [->|Hin].
+    - apply nodup_app_l in Hk. rewrite map_map in Hk. cbn [fst] in Hk.
+      clear -Hk. induction (nouts k) as [|c t IHt]; [constructor|]. cbn [map] in *.
+      inversion Hk as [|? ? Hnin Hk']; subst. constructor; [|auto].
+      intros H. apply Hnin. apply in_map_iff in H. destruct H as [c' [E Hc']]. apply in_map_iff. exists c'.
+      rewrite E. auto.
+    - apply nodup_app_r in Hk. auto. }
+  rewrite forge_outs_fold; auto.
+  - f_equal. f_equal. unfold putr. rewrite <- (map_id X) at 2. apply map_ext_in. intros k Hin.
+    transitivity (set_nouts k (nouts k)); [|destruct k; reflexivity].
+    apply f_equal. rewrite <- (map_id (nouts k)) at 2. apply map_ext_in. intros c Hc.
+    assert (E : hfold (fun _ => RNone) (olinks_of X) (nlab k, dlab c) = drcv c).
+    { rewrite hfold_spec.
+      destruct (find (fun p => cref_eqb (fst p) (nlab k, dlab c)) (rev (olinks_of X))) as [[key l]|] eqn:F.
+      - apply find_some in F. destruct F as [Fi Fe]. cbn [fst] in Fe. apply cref_eqb_eq in Fe. subst key.
+        apply in_rev in Fi. apply in_olinks in Fi. destruct Fi as [k' [c' [Hk' [Hc' [Ek Rl]]]]].
+        assert (c' = c).
+        { apply (nodup_fst_fun (otab X) (nlab k, dlab c)).
+          - rewrite keys_otab. exact Hk.
+          - apply in_otab. exists k'. auto.
+          - apply in_otab. exists k. auto. }
+        subst c'. cbn [snd]. destruct (Hr k c Hin Hc) as [R|[o [c'' [R _]]]]; rewrite R in Rl; cbn in Rl.
+        + discriminate.
+        + inversion Rl; subst. symmetry. exact R.
+      - destruct (Hr k c Hin Hc) as [R|[o [c'' [R _]]]]; [symmetry; exact R|].
+        exfalso. pose proof (find_none _ _ F ((nlab k, dlab c), o)) as Hnone.
+        cbn [fst] in Hnone. rewrite cref_eqb_refl in Hnone.
+        assert (Hin' : In ((nlab k, dlab c), o) (rev (olinks_of X))).
+        { apply -> in_rev. apply in_olinks. exists k, c. rewrite R. auto. }
+        specialize (Hnone Hin'). discriminate. }
+    rewrite E. destruct c; reflexivity.
+  - intros [[kc cl] out] Hp. cbn [fst snd]. apply in_olinks in Hp.
+    destruct Hp as [k [c [Hin [Hc [Ek Rl]]]]]. inversion Ek; subst kc cl.
+    destruct (Hr k c Hin Hc) as [R|[o [c' [R [Fo Hv]]]]]; rewrite R in Rl; cbn in Rl; [discriminate|].
+    inversion Rl; subst o. exists k, c, c'. repeat split; auto.
+    + apply findn_nodup; auto.
+    + apply findd_nodup; auto.
+Qed.
+
+(* =================================================================== 7. the guards do not look at connections *)
+Lemma forallb_map {A B} (f : B -> bool) (g : A -> B) l : forallb f (map g l) = forallb (fun x => f (g x)) l.
+Proof. induction l as [|x r IH]; [reflexivity|]. cbn. rewrite IH. reflexivity. Qed.
+Lemma forallb_ext_in {A} (f g : A -> bool) l : (forall x, In x l -> f x = g x) -> forallb f l = forallb g l.
+Proof.
+  induction l as [|x r IH]; intros H; [reflexivity|]. cbn. rewrite (H x (or_introl eq_refl)), IH; auto.
+  intros y Hy; apply H; right; exact Hy.
+Qed.
+
+Lemma putk_kids fi fo gi go k : nkids (putk fi fo gi go k) = nkids k. Proof. reflexivity. Qed.
+Lemma putk_lab fi fo gi go k : nlab (putk fi fo gi go k) = nlab k. Proof. reflexivity. Qed.
+Lemma orecv_kids k : nkids (orecv_clear k) = nkids k. Proof. destruct k; reflexivity. Qed.
+Lemma orecv_lab k : nlab (orecv_clear k) = nlab k. Proof. destruct k; reflexivity. Qed.
+Lemma orecv_ins k : nins (orecv_clear k) = nins k. Proof. destruct k; reflexivity. Qed.
+Lemma orecv_kind k : nkind (orecv_clear k) = nkind k. Proof. destruct k; reflexivity. Qed.
+Lemma orecv_outs k : nouts (orecv_clear k) = map (fun c => set_drcv c RNone) (nouts k). Proof. destruct k; reflexivity. Qed.
+Lemma inner_kids k : nkids (inner k) = relevel (map inner (nkids k)). Proof. destruct k; reflexivity. Qed.
+Lemma inner_kind k : nkind (inner k) = nkind k. Proof. destruct k; reflexivity. Qed.
+Lemma inner_running k : nrunning (inner k) = nrunning k. Proof. destruct k; reflexivity. Qed.
+Lemma inner_start k : nstart (inner k) = nstart k. Proof. destruct k; reflexivity. Qed.
+
+Lemma has_d_map (g : dchan -> dchan) cs l : (forall c, dlab (g c) = dlab c) -> has_d (map g cs) l = has_d cs l.
+Proof. intros H. unfold has_d. rewrite findd_map by exact H. destruct (findd l cs); reflexivity. Qed.
+
+Lemma has_in_map (g : node -> node) K c l :
+  (forall k, nlab (g k) = nlab k) -> (forall k, map dlab (nins (g k)) = map dlab (nins k)) ->
+  has_in (map g K) c l = has_in K c l.
+Proof.
+  intros Hl Hi. unfold has_in. rewrite findn_map by exact Hl. destruct (findn c K) as [k|]; [|reflexivity]. cbn.
+  specialize (Hi k). unfold findd. revert Hi. generalize (nins (g k)) (nins k).
+  induction l0 as [|a r IH]; intros [|b t] H; try discriminate; [reflexivity|].
+  cbn in H. inversion H as [[E1 E2]]. cbn [find]. rewrite E1. destruct (String.eqb (dlab b) l); [reflexivity|].
+  apply IH. exact E2.
+Qed.
+
+Definition tk (F : (cref -> list cref) * (cref -> list cref) * (cref -> list cref) * (cref -> list cref)) (k : node) : node :=
+  putk (fst (fst (fst F))) (snd (fst (fst F))) (snd (fst F)) (snd F) (inner k).
+
+Lemma relevel_as_map K : exists F, relevel (map inner K) = map (tk F) K.
+Proof.
+  eexists (_, _, _, _). unfold relevel, put. rewrite map_map. reflexivity.
+Qed.
+
+(* facts about one transformed child *)
+Lemma tk_lab F k : nlab (tk F k) = nlab k. Proof. unfold tk. rewrite putk_lab. apply inner_lab. Qed.
+Lemma tk_ins_labs F k : map dlab (nins (tk F k)) = map dlab (nins k).
+Proof. unfold tk, putk. cbn [nins]. rewrite map_map, inner_ins. reflexivity. Qed.
+Lemma tk_chain F k l : chain (tk F k) l = chain k l.
+Proof. unfold tk. rewrite chain_putk. apply chain_inner. Qed.
+
+Lemma chain_kid_tk F K c l : chain_kid (map (tk F) K) c l = chain_kid K c l.
+Proof. apply chain_kid_map; [apply tk_lab | intros; apply tk_chain]. Qed.
+Lemma has_in_tk F K c l : has_in (map (tk F) K) c l = has_in K c l.
+Proof. apply has_in_map; [apply tk_lab | apply tk_ins_labs]. Qed.
+
+Lemma outs_pred_tk F (g : dchan -> bool) K :
+  (forall c l, g (set_dcon c l) = g c) ->
+  forallb (fun k => forallb g (nouts k)) (map (tk F) K) = forallb (fun k => forallb g (nouts k)) K.
+Proof.
+  intros Hg. rewrite forallb_map. apply forallb_ext_in. intros k _. unfold tk, putk. cbn [nouts].
+  rewrite forallb_map, inner_outs. apply forallb_ext_in. intros c _. apply Hg.
+Qed.
+
+Lemma resolve_inner k : resolve_here (inner k) = resolve_here k.
+Proof.
+  unfold resolve_here. rewrite inner_kind, inner_ins, inner_outs, inner_kids.
+  destruct (relevel_as_map (nkids k)) as [F ->].
+  destruct (is_linked (nkind k)).
+  - f_equal.
+    + apply forallb_ext_in. intros c _. destruct (drcv c); try reflexivity. apply has_in_tk.
+    + apply outs_pred_tk. intros c l. reflexivity.
+  - f_equal. apply outs_pred_tk. intros c l. reflexivity.
+Qed.
+Lemma unlocked_inner k : unlocked_here (inner k) = unlocked_here k.
+Proof.
+  unfold unlocked_here. rewrite inner_ins, inner_kids. destruct (relevel_as_map (nkids k)) as [F ->].
+  apply forallb_ext_in. intros c _. destruct (drcv c); try reflexivity. rewrite chain_kid_tk. reflexivity.
+Qed.
+Lemma synced_inner k : synced_here (inner k) = synced_here k.
+Proof.
+  unfold synced_here. rewrite inner_ins, inner_outs, inner_kids. destruct (relevel_as_map (nkids k)) as [F ->].
+  f_equal.
+  - apply forallb_ext_in. intros c _. destruct (drcv c); try reflexivity. rewrite chain_kid_tk. reflexivity.
+  - apply outs_pred_tk. intros c l. reflexivity.
+Qed.
+Lemma insok_inner k : insokb (inner k) = insokb k.
+Proof. unfold insokb. rewrite inner_ins. reflexivity. Qed.
+
+(* own connections / own output links are invisible to the *_here predicates *)
+Lemma resolve_putk fi fo gi go k : resolve_here (putk fi fo gi go k) = resolve_here k.
+Proof.
+  unfold resolve_here. cbn [putk nkind nins nouts nkids]. destruct (is_linked (nkind k)).
+  - f_equal.
+    + rewrite forallb_map. reflexivity.
+    + apply forallb_ext_in. intros x _. apply forallb_ext_in. intros c _.
+      destruct (drcv c); try reflexivity. apply has_d_map. reflexivity.
+  - f_equal. rewrite forallb_map. reflexivity.
+Qed.
+Lemma unlocked_putk fi fo gi go k : unlocked_here (putk fi fo gi go k) = unlocked_here k.
+Proof. unfold unlocked_here. cbn [putk nins nkids]. rewrite forallb_map. reflexivity. Qed.
+Lemma synced_putk fi fo gi go k : synced_here (putk fi fo gi go k) = synced_here k.
+Proof.
+  unfold synced_here. cbn [putk nins nouts nkids]. f_equal.
+  - rewrite forallb_map. reflexivity.
+  - apply forallb_ext_in. intros x _. apply forallb_ext_in. intros c _. destruct (drcv c); try reflexivity.
+    rewrite findd_map by reflexivity. destruct (findd l (nouts k)); reflexivity.
+Qed.
+Lemma insok_putk fi fo gi go k : insokb (putk fi fo gi go k) = insokb k.
+Proof. unfold insokb. cbn [putk nins]. rewrite map_map. reflexivity. Qed.
+
+Lemma resolve_orecv k : resolve_here (orecv_clear k) = resolve_here k.
+Proof.
+  unfold resolve_here. rewrite orecv_kind, orecv_ins, orecv_kids, orecv_outs. destruct (is_linked (nkind k)); [|reflexivity].
+  f_equal. apply forallb_ext_in. intros x _. apply forallb_ext_in. intros c _.
+  destruct (drcv c); try reflexivity. apply has_d_map. reflexivity.
+Qed.
+Lemma unlocked_orecv k : unlocked_here (orecv_clear k) = unlocked_here k.
+Proof. unfold unlocked_here. rewrite orecv_ins, orecv_kids. reflexivity. Qed.
+Lemma synced_orecv k : synced_here (orecv_clear k) = synced_here k.
+Proof.
+  unfold synced_here. rewrite orecv_ins, orecv_kids, orecv_outs. f_equal.
+  apply forallb_ext_in. intros x _. apply forallb_ext_in. intros c _. destruct (drcv c); try reflexivity.
+  rewrite findd_map by reflexivity. destruct (findd l (nouts k)); reflexivity.
+Qed.
+Lemma insok_orecv k : insokb (orecv_clear k) = insokb k.
+Proof. unfold insokb. rewrite orecv_ins. reflexivity. Qed.
+
+Section AllbInv.
+  Variable p : node -> bool.
+  Hypothesis p_inner : forall k, p (inner k) = p k.
+  Hypothesis p_putk : forall fi fo gi go k, p (putk fi fo gi go k) = p k.
+  Hypothesis p_orecv : forall k, p (orecv_clear k) = p k.
+
+  Lemma allb_putk fi fo gi go k : allb p (putk fi fo gi go k) = allb p k.
+  Proof. rewrite !allb_eq, p_putk, putk_kids. reflexivity. Qed.
+  Lemma allb_orecv k : allb p (orecv_clear k) = allb p k.
+  Proof. rewrite !allb_eq, p_orecv, orecv_kids. reflexivity. Qed.
+  Lemma allb_inner : forall k, allb p (inner k) = allb p k.
+  Proof.
+    induction k as [lab kd cls fl rn ex ins outs sin sout kids start prov IH] using node_ind'.
+    rewrite !allb_eq, p_inner, inner_kids. cbn [nkids]. f_equal.
+    destruct (relevel_as_map kids) as [F ->]. rewrite forallb_map. apply forallb_ext_in. intros k Hk.
+    unfold tk. rewrite allb_putk. rewrite Forall_forall in IH. apply IH. exact Hk.
+  Qed.
+  Lemma allb_strip k : allb p (strip_root k) = allb p k.
+  Proof. rewrite strip_as_put, allb_orecv, allb_putk. reflexivity. Qed.
+  Lemma allb_ref k : allb p (ref k) = allb p k.
+  Proof. unfold ref. rewrite allb_strip. apply allb_inner. Qed.
+  Lemma allb_tk F k : allb p (tk F k) = allb p k.
+  Proof. unfold tk. rewrite allb_putk. apply allb_inner. Qed.
+End AllbInv.
+
+Definition resolve_ref := allb_ref resolve_here resolve_inner resolve_putk resolve_orecv.
+Definition unlocked_ref := allb_ref unlocked_here unlocked_inner unlocked_putk unlocked_orecv.
+Definition synced_ref := allb_ref synced_here synced_inner synced_putk synced_orecv.
+Definition insok_ref := allb_ref insokb insok_inner insok_putk insok_orecv.
+
+(* =================================================================== 8. __setstate__ of one node, exactly *)
+Lemma ref_eq n :
+  ref n = Node (nlab n) (nkind n) (ncls n) (nfailed n) (nrunning n) (drop_live (nexe n))
+               (map (fun c => set_dcon c []) (nins n))
+               (map (fun c => set_drcv (set_dcon c []) RNone) (nouts n))
+               (map (fun c => set_scon c []) (nsin n)) (map (fun c => set_scon c []) (nsout n))
+               (relevel (map inner (nkids n))) (nstart n) (nprov n).
+Proof. destruct n; reflexivity. Qed.
+
+Lemma kid_ins_nodup K k : NoDup (keys (din K)) -> In k K -> NoDup (map dlab (nins k)).
+Proof.
+  intros Hk Hin. unfold din, keys in Hk. induction K as [|x r IH]; [contradiction|].
+  cbn [flat_map] in Hk. rewrite map_app in Hk. destruct Hin as [->|Hin].
+  - apply nodup_app_l in Hk. rewrite map_map in Hk. cbn [fst] in Hk.
+    clear -Hk. induction (nins k) as [|c t IHt]; [constructor|]. cbn [map] in *.
+    inversion Hk as [|? ? Hnin Hk']; subst. constructor; [|auto].
+    intros H. apply Hnin. apply in_map_iff in H. destruct H as [c' [E Hc']]. apply in_map_iff. exists c'.
+    rewrite E. auto.
+  - apply nodup_app_r in Hk. auto.
+Qed.
+Lemma kid_outs_nodup K k : NoDup (keys (dout K)) -> In k K -> NoDup (map dlab (nouts k)).
+Proof.
+  intros Hk Hin. unfold dout, keys in Hk. induction K as [|x r IH]; [contradiction|].
+  cbn [flat_map] in Hk. rewrite map_app in Hk. destruct Hin as [->|Hin].
+  - apply nodup_app_l in Hk. rewrite map_map in Hk. cbn [fst] in Hk.
+    clear -Hk. induction (nouts k) as [|c t IHt]; [constructor|]. cbn [map] in *.
+    inversion Hk as [|? ? Hnin Hk']; subst. constructor; [|auto].
+    intros H. apply Hnin. apply in_map_iff in H. destruct H as [c' [E Hc']]. apply in_map_iff. exists c'.
+    rewrite E. auto.
+  - apply nodup_app_r in Hk. auto.
+Qed.
+
+Lemma wfb_parts n : wfb n = true ->
+  forallb wfb (nkids n) = true /\ level_ok (nkids n) = true /\ NoDup (map nlab (nkids n)) /\
+  (forall l, In l (nstart n) -> In l (map nlab (nkids n))) /\
+  (is_comp (nkind n) = false -> nkids n = []).
+Proof.
+  rewrite wfb_eq, !andb_true_iff. intros [[[[A B] C] D] E]. repeat split; auto.
+  - apply nodupb_s. exact C.
+  - intros l Hl. apply mems_In. exact (forallb_In _ _ _ D Hl).
+  - intros Hc. rewrite Hc in E. cbn in E. destruct (nkids n); [reflexivity|discriminate].
+Qed.
+
+Lemma level_keys K : level_ok K = true ->
+  NoDup (keys (din K)) /\ NoDup (keys (dout K)) /\ NoDup (keys (sinv K)) /\ NoDup (keys (soutv K)).
+Proof.
+  intros H. destruct (level_ok_spec _ H) as [[A [B [C D]]] _].
+  apply table_ok_spec in A, B, C, D. tauto.
+Qed.
+
+Lemma wfb_insok : forall n, wfb n = true -> insokb n = true -> allb insokb n = true.
+Proof.
+  induction n as [lab kd cls fl rn ex ins outs sin sout kids start prov IH] using node_ind'.
+  intros Hw Hi. rewrite allb_eq, Hi. cbn [andb nkids]. apply forallb_forall. intros k Hk.
+  destruct (wfb_parts _ Hw) as [Wk [Lk _]]. cbn [nkids] in *. rewrite Forall_forall in IH. apply IH; auto.
+  - exact (forallb_In _ _ _ Wk Hk).
+  - unfold insokb. apply nodupb_s. destruct (level_keys _ Lk) as [A _]. eapply kid_ins_nodup; eauto.
+Qed.
+
+Lemma findn_mem l K : In l (map nlab K) -> exists k, findn l K = Some k.
+Proof.
+  unfold findn. induction K as [|x r IH]; intros H; [contradiction|]. cbn [find].
+  destruct (String.eqb (nlab x) l) eqn:E; [eauto|]. destruct H as [H|H].
+  - rewrite H, String.eqb_refl in E. discriminate.
+  - auto.
+Qed.
+
+Lemma orecv_clear_id x : (forall c, In c (nouts x) -> drcv c = RNone) -> orecv_clear x = x.
+Proof.
+  intros H. unfold orecv_clear. transitivity (set_nouts x (nouts x)); [|destruct x; reflexivity].
+  apply f_equal. rewrite <- (map_id (nouts x)) at 2. apply map_ext_in. intros c Hc.
+  unfold set_drcv. rewrite <- (H c Hc). destruct c; reflexivity.
+Qed.
+
+Lemma ref_lab k : nlab (ref k) = nlab k. Proof. destruct k; reflexivity. Qed.
+
+Lemma relink_ref K :
+  level_ok K = true ->
+  exists K1, relink connect_d (rev (pairs (din K))) (map ref K) = Ok K1 /\
+             relink connect_s (pairs (sinv K)) K1 = Ok (map orecv_clear (relevel (map inner K))).
+Proof.
+  intros Hl.
+  destruct (@relink_level K (map ref K) Hl) as [K1 [R1 R2]].
+  - rewrite map_ref, map_map. apply map_ext. intros x. apply clear_own_strip.
+  - apply keys_din_ref.
+  - apply keys_dout_ref.
+  - apply keys_sinv_ref.
+  - apply keys_soutv_ref.
+  - exists K1. split; [exact R1|]. rewrite R2. f_equal.
+    unfold relevel. rewrite din_inner, sinv_inner. unfold put. rewrite map_ref, !map_map.
+    apply map_ext. intros x. apply putk_strip.
+Qed.
+
+Definition own_blank (n : node) : node :=
+  Node (nlab n) (nkind n) (ncls n) (nfailed n) (nrunning n) (drop_live (nexe n))
+       (map blank (nins n)) (map blank (nouts n))
+       (map (fun c => set_scon c []) (nsin n)) (map (fun c => set_scon c []) (nsout n))
+       (map ref (nkids n)) (nstart n) (nprov n).
+
+Lemma setstate_ref n :
+  wfb n = true -> own_ok n = true ->
+  resolve_here n = true -> unlocked_here n = true -> synced_here n = true ->
+  (forall k, In k (nkids n) -> allb resolve_here k = true) ->
+  setstate_level (own_blank n)
+                 (if is_comp (nkind n) then pairs (din (nkids n)) else [])
+                 (if is_comp (nkind n) then pairs (sinv (nkids n)) else [])
+                 (if is_linked (nkind n) then il_of (nins n) else [])
+                 (if is_linked (nkind n) then olinks_of (nkids n) else [])
+  = Ok (ref n).
+Proof.
+  intros Hw Ho Hr Hu Hs Hrk.
+  destruct (wfb_parts _ Hw) as [Wk [Lk [Nk [Sk Ek]]]].
+  unfold own_ok in Ho. apply andb_true_iff in Ho. destruct Ho as [Oi Oo]. apply nodupb_s in Oi, Oo.
+  unfold setstate_level. change (nkind (own_blank n)) with (nkind n).
+  change (nkids (own_blank n)) with (map ref (nkids n)). change (nstart (own_blank n)) with (nstart n).
+  destruct (is_comp (nkind n)) eqn:Ec.
+  2:{ (* a leaf *)
+    rewrite (Ek eq_refl) in *. rewrite ref_eq. unfold own_blank. rewrite (Ek eq_refl). cbn [map].
+    f_equal. f_equal.
+    - apply map_ext_in. intros c Hc. unfold resolve_here in Hr.
+      assert (Hl : is_linked (nkind n) = false) by (destruct (nkind n); try discriminate; reflexivity).
+      rewrite Hl in Hr. apply andb_true_iff in Hr. destruct Hr as [Hr _].
+      pose proof (forallb_In _ _ _ Hr Hc) as R. cbn in R. unfold blank, set_dcon.
+      destruct (drcv c); try discriminate. reflexivity. }
+  (* a composite *)
+  assert (Hst : forallb (fun l => match findn l (map ref (nkids n)) with Some _ => true | None => false end) (nstart n) = true).
+  { apply forallb_forall. intros l Hl. rewrite findn_map by apply ref_lab.
+    destruct (findn_mem _ _ (Sk l Hl)) as [k ->]. reflexivity. }
+  rewrite Hst. destruct (relink_ref _ Lk) as [K1 [R1 R2]]. rewrite R1, R2.
+  set (X := relevel (map inner (nkids n))).
+  destruct (level_keys _ Lk) as [Ndi [Ndo _]].
+  destruct (relevel_as_map (nkids n)) as [F EX]. fold X in EX.
+  assert (Xouts : forall x, In x X -> exists k, In k (nkids n) /\ nlab x = nlab k /\
+                                            map (fun c => (dlab c, dval c, drcv c)) (nouts x) =
+                                            map (fun c => (dlab c, dval c, drcv c)) (nouts k)).
+  { intros x Hx. rewrite EX in Hx. apply in_map_iff in Hx. destruct Hx as [k [<- Hk]]. exists k.
+    split; [exact Hk|]. split; [apply tk_lab|]. unfold tk, putk. cbn [nouts]. rewrite map_map, inner_outs. reflexivity. }
+  destruct (is_linked (nkind n)) eqn:El.
+  2:{ (* Workflow / plain composite: nothing to forge; no child carries an output link *)
+    rewrite ref_eq. unfold own_blank, set_nkids. cbn. fold X. f_equal. f_equal.
+    - apply map_ext_in. intros c Hc. unfold resolve_here in Hr. rewrite El in Hr.
+      apply andb_true_iff in Hr. destruct Hr as [Hr _].
+      pose proof (forallb_In _ _ _ Hr Hc) as R. cbn in R. unfold blank, set_dcon.
+      destruct (drcv c); try discriminate. reflexivity.
+    - rewrite <- (map_id X) at 2. apply map_ext_in. intros x Hx. apply orecv_clear_id.
+      intros c Hc. destruct (Xouts x Hx) as [k [Hk [_ Eo]]].
+      unfold resolve_here in Hr. rewrite El in Hr. apply andb_true_iff in Hr. destruct Hr as [_ Hr].
+      pose proof (forallb_In _ _ _ Hr Hk) as Rk. cbn in Rk.
+      assert (In (dlab c, dval c, drcv c) (map (fun c => (dlab c, dval c, drcv c)) (nouts k))).
+      { rewrite <- Eo. apply in_map_iff. exists c. auto. }
+      apply in_map_iff in H. destruct H as [c0 [E0 Hc0]]. injection E0 as E1 E2 E3.
+      pose proof (forallb_In _ _ _ Rk Hc0) as R0. cbn in R0. rewrite E3 in R0.
+      destruct (drcv c); try discriminate. reflexivity. }
+  (* Macro / For: re-forge the links *)
+  set (base := Node (nlab n) (nkind n) (ncls n) (nfailed n) (nrunning n) (drop_live (nexe n))
+                    (map blank (nins n)) (map blank (nouts n))
+                    (map (fun c => set_scon c []) (nsin n)) (map (fun c => set_scon c []) (nsout n))
+                    (map ref (nkids n)) (nstart n) (nprov n)).
+  change (set_nkids (own_blank n) (map orecv_clear X))
+    with (set_nkids (set_nins base (map (fun c => set_dcon c []) [] ++ map blank (nins n))) (map orecv_clear X)).
+  rewrite (@forge_ins_exact base (map orecv_clear X) (nins n) []).
+  - (* output links *)
+    cbn [app].
+    assert (Eol : olinks_of (nkids n) = olinks_of X).
+    { rewrite EX. unfold olinks_of. rewrite flat_map_concat_map, flat_map_concat_map, map_map. f_equal.
+      apply map_ext. intros k. rewrite tk_lab. unfold tk, putk. cbn [nouts]. rewrite inner_outs.
+      rewrite !flat_map_concat_map, map_map. reflexivity. }
+    rewrite Eol.
+    set (n2 := set_nins base (map (fun c => set_dcon c []) (nins n))).
+    rewrite (@forge_outs_exact n2 X).
+    + rewrite ref_eq. fold X. reflexivity.
+    + unfold X. unfold relevel. rewrite dout_put, keys_refill, dout_inner. exact Ndo.
+    + rewrite EX, map_map. erewrite map_ext; [exact Nk|]. intros k. apply tk_lab.
+    + unfold n2, base. cbn [set_nins nouts]. rewrite map_map. exact Oo.
+    + intros x c Hx Hc. destruct (Xouts x Hx) as [k [Hk [_ Eo]]].
+      assert (Hin : In (dlab c, dval c, drcv c) (map (fun c => (dlab c, dval c, drcv c)) (nouts k))).
+      { rewrite <- Eo. apply in_map_iff. exists c. auto. }
+      apply in_map_iff in Hin. destruct Hin as [c0 [E0 Hc0]]. injection E0 as E1 E2 E3.
+      unfold resolve_here in Hr. rewrite El in Hr. apply andb_true_iff in Hr. destruct Hr as [_ Hr].
+      pose proof (forallb_In _ _ _ (forallb_In _ _ _ Hr Hk) Hc0) as R0. cbn in R0. rewrite E3 in R0.
+      unfold synced_here in Hs. apply andb_true_iff in Hs. destruct Hs as [_ Hs].
+      pose proof (forallb_In _ _ _ (forallb_In _ _ _ Hs Hk) Hc0) as S0. cbn in S0. rewrite E3 in S0.
+      destruct (drcv c) as [| |o]; [left; reflexivity|discriminate|]. right.
+      unfold has_d in R0. destruct (findd o (nouts n)) as [c'|] eqn:Fo; [|discriminate].
+      apply slot_eqb_true in S0.
+      exists o, (blank c'). split; [reflexivity|]. split.
+      * unfold n2, base. cbn [set_nins nouts]. rewrite findd_map by reflexivity. rewrite Fo. reflexivity.
+      * cbn [blank dval]. congruence.
+  - cbn [app]. exact Oi.
+  - intros c Hc. unfold resolve_here in Hr. rewrite El in Hr. apply andb_true_iff in Hr. destruct Hr as [Hr _].
+    pose proof (forallb_In _ _ _ Hr Hc) as R. cbn in R.
+    destruct (drcv c) as [|k l|] eqn:Er; try discriminate.
+    unfold has_in in R. destruct (findn k (nkids n)) as [k0|] eqn:Fk; [|discriminate].
+    destruct (findd l (nins k0)) as [c0|] eqn:Fc; [|discriminate].
+    pose proof (findn_In _ _ Fk) as [Hk0 _].
+    exists k, l, (orecv_clear (tk F k0)). split; [reflexivity|]. split.
+    { rewrite EX, map_map. rewrite findn_map by (intros; rewrite orecv_lab; apply tk_lab). rewrite Fk. reflexivity. }
+    assert (Fc' : exists c', findd l (nins (orecv_clear (tk F k0))) = Some c').
+    { rewrite orecv_ins. unfold tk, putk. cbn [nins]. rewrite findd_map by reflexivity. rewrite inner_ins, Fc.
+      eexists; reflexivity. }
+    split; [exact Fc'|]. destruct Fc' as [c' Fc'].
+    eapply push_quiet; [| |exact Fc'|].
+    + rewrite (allb_orecv insokb insok_orecv), (allb_tk insokb insok_inner insok_putk).
+      apply wfb_insok; [exact (forallb_In _ _ _ Wk Hk0)|].
+      unfold insokb. apply nodupb_s. eapply kid_ins_nodup; eauto.
+    + rewrite (allb_orecv resolve_here resolve_orecv), (allb_tk resolve_here resolve_inner resolve_putk).
+      apply Hrk. exact Hk0.
+    + rewrite chain_orecv, tk_chain. unfold quiet.
+      unfold unlocked_here in Hu. pose proof (forallb_In _ _ _ Hu Hc) as U. cbn in U. rewrite Er in U.
+      unfold synced_here in Hs. apply andb_true_iff in Hs. destruct Hs as [Hs _].
+      pose proof (forallb_In _ _ _ Hs Hc) as S. cbn in S. rewrite Er in S.
+      unfold chain_kid in U, S. rewrite Fk in U, S.
+      apply forallb_forall. intros h Hh. rewrite (forallb_In _ _ _ U Hh), (forallb_In _ _ _ S Hh). reflexivity.
+Qed.
+
+(* =================================================================== 9. one round trip, exactly *)
+Lemma mapM_ex {A B} (f : A -> res B) (Q : A -> B -> Prop) l :
+  (forall x, In x l -> exists y, f x = Ok y /\ Q x y) -> exists ys, mapM f l = Ok ys /\ Forall2 Q l ys.
+Proof.
+  induction l as [|x r IH]; intros H.
+  - exists []. split; [reflexivity|constructor].
+  - destruct (H x (or_introl eq_refl)) as [y [Ey Qy]].
+    destruct IH as [ys [Eys Qys]]; [intros z Hz; apply H; right; exact Hz|].
+    exists (y :: ys). cbn [mapM]. rewrite Ey, Eys. split; [reflexivity|constructor; auto].
+Qed.
+Lemma mapM_restore K sk : Forall2 (fun k s => restore s = Ok (ref k)) K sk -> mapM restore sk = Ok (map ref K).
+Proof. induction 1 as [|k s K' sk' H _ IH]; [reflexivity|]. cbn [mapM map]. rewrite H, IH. reflexivity. Qed.
+
+Lemma kid_own_ok n k : wfb n = true -> In k (nkids n) -> own_ok k = true.
+Proof.
+  intros Hw Hk. destruct (wfb_parts _ Hw) as [_ [Lk _]]. destruct (level_keys _ Lk) as [A [B _]].
+  unfold own_ok. apply andb_true_iff. split; apply nodupb_s.
+  - eapply kid_ins_nodup; eauto.
+  - eapply kid_outs_nodup; eauto.
+Qed.
+
+Theorem restore_dump : forall n,
+  wfb n = true -> own_ok n = true ->
+  links_resolve n = true -> links_unlocked n = true -> links_synced n = true ->
+  forall det path, exists s, dump det path n = Ok s /\ s_det s = det /\ restore s = Ok (ref n).
+Proof.
+  induction n as [lab kd cls fl rn ex ins outs sin sout kids start prov IH] using node_ind'.
+  intros Hw Ho Hr Hu Hs det path.
+  set (n := Node lab kd cls fl rn ex ins outs sin sout kids start prov) in *.
+  unfold links_resolve, links_unlocked, links_synced in Hr, Hu, Hs. rewrite allb_eq in Hr, Hu, Hs.
+  apply andb_true_iff in Hr, Hu, Hs. destruct Hr as [Hr Hrk], Hu as [Hu Huk], Hs as [Hs Hsk].
+  destruct (wfb_parts _ Hw) as [Wk _].
+  change (nkids n) with kids in *.
+  destruct (@mapM_ex _ _ (fun k => dump (Some path) (slash path (nlab k)) k)
+                     (fun k s => restore s = Ok (ref k)) kids) as [sk [Esk Qsk]].
+  { intros k Hk. rewrite Forall_forall in IH.
+    destruct (IH k Hk (forallb_In _ _ _ Wk Hk) (kid_own_ok n k Hw Hk)
+                 (forallb_In _ _ _ Hrk Hk) (forallb_In _ _ _ Huk Hk) (forallb_In _ _ _ Hsk Hk)
+                 (Some path) (slash path (nlab k))) as [s [E1 [_ E2]]].
+    exists s. auto. }
+  rewrite dump_eq. change (nkids n) with kids. rewrite Esk.
+  assert (Hset := @setstate_ref n Hw Ho Hr Hu Hs (fun k Hk => forallb_In _ _ _ Hrk Hk)).
+  assert (Erest : forall il ol, restore_node (dump_node det path n sk il ol) (map ref kids) = own_blank n).
+  { intros il ol. unfold restore_node, dump_node, own_blank. cbn. rewrite !map_map. reflexivity. }
+  destruct (is_linked (nkind n)) eqn:El.
+  - rewrite ilinks_of_ok.
+    + eexists. split; [reflexivity|]. split; [reflexivity|].
+      rewrite restore_eq. change (s_kids (dump_node det path n sk (il_of (nins n)) (olinks_of kids))) with sk.
+      rewrite (mapM_restore Qsk). rewrite Erest. exact Hset.
+    + intros c Hc. unfold resolve_here in Hr. rewrite El in Hr. apply andb_true_iff in Hr. destruct Hr as [Hr _].
+      pose proof (forallb_In _ _ _ Hr Hc) as R. cbn in R. destruct (drcv c) as [|k l|]; try discriminate. eauto.
+  - eexists. split; [reflexivity|]. split; [reflexivity|].
+    rewrite restore_eq. change (s_kids (dump_node det path n sk [] [])) with sk.
+    rewrite (mapM_restore Qsk). rewrite Erest. exact Hset.
 Qed.
